@@ -382,18 +382,25 @@ def gen_attempt_facts(tx: ast.Module) -> str:
             if any(_u(t).startswith("self._operations") for t in tg):
                 per_attempt = False
     kept = True
+    ACC = ("append_files", "deleted_paths", "expire_cutoff", "mutator")
     fo = find_function(tx, "_commit_file_ops", "Transaction")
     after = [n for n in ast.walk(commit) if hasattr(n, "lineno") and part and n.lineno > part[0].end_lineno]
     for n in list(ast.walk(fo)) + after:
-        if isinstance(n, ast.AugAssign) and _u(n.target) in ("append_files", "deleted_paths"):
+        if isinstance(n, ast.AugAssign) and _u(n.target) in ACC:
             kept = False
         if isinstance(n, (ast.Assign, ast.AnnAssign)):
             tg = n.targets if isinstance(n, ast.Assign) else [n.target]
-            if any(_u(t) in ("append_files", "deleted_paths") or _u(t).startswith(("append_files[", "deleted_paths[")) for t in tg):
+            if any(_u(t) in ACC or _u(t).startswith(tuple(a + "[" for a in ACC)) for t in tg):
+                # (the one rebinding after the loop that is part of the partition itself: the mutator built from the cutoff)
+                if not (n in after and _u(tg[0]) == "mutator" and "self._make_expire_mutator(expire_cutoff)" in _u(n.value)):
+                    kept = False
+            # an alias of an accumulator (x = deleted_paths) could be edited under another name
+            val = n.value
+            if val is not None and isinstance(val, ast.Name) and val.id in ACC[:2]:
                 kept = False
-        if isinstance(n, ast.Delete) and any(_u(t).startswith(("append_files", "deleted_paths")) for t in n.targets):
+        if isinstance(n, ast.Delete) and any(_u(t).startswith(ACC) for t in n.targets):
             kept = False
-        if isinstance(n, ast.Call) and isinstance(n.func, ast.Attribute) and _u(n.func.value) in ("append_files", "deleted_paths") \
+        if isinstance(n, ast.Call) and isinstance(n.func, ast.Attribute) and _u(n.func.value) in ACC \
                 and n.func.attr in _MUTATORS:
             kept = False
     b = lambda v: "true" if v else "false"
